@@ -275,6 +275,9 @@ def battery(pid):
         sc5 = scenario_rs(key=True, host_response=bresp)
         cresp = b"HTTP/1.1 500 Internal Server Error\r\ncontent-length: %d\r\n\r\n%s" % (len(bbody), bbody)
         sc5c = scenario_rs(key=True, host_response=cresp)
+        bighead = b"HTTP/1.1 200 OK\r\nx-big: " + b"a" * 30000 + b"\r\nx-big-2: " + b"b" * 30000 + b"\r\ncontent-length: 2\r\n\r\nok"
+        T += [("e2e_large_response_head_reaches_client", scenario_rs(key=True, host_response=bighead),
+               'o.status == 200 && o.raw_response.contains(&"a".repeat(30000)) && o.raw_response.contains(&"b".repeat(30000)) && o.raw_response.ends_with("ok")', "a response with 60 KB of headers must reach the client as sent")]
         T += [("e2e_request_reaches_host_unchanged", sc, 'o.host_requests.len() == 1 && o.host_requests[0].starts_with("POST /machine?comp=x&B=2&a=1 HTTP/1.1\\r\\n") && o.host_requests[0].ends_with(%s) && '
                'o.host_requests[0].to_lowercase().contains("x-custom-one: value one") && o.host_requests[0].contains("Value One") && o.host_requests[0].to_lowercase().contains("x-custom-two: two") && '
                'o.host_requests[0].to_lowercase().contains("accept: text/plain") && o.host_requests[0].to_lowercase().contains("accept: application/json") && '
